@@ -335,6 +335,9 @@ func genStruct(rt *rapid.T, o TypeOpts, depth int) TypeDesc {
 			if o.avoid("unifold") && hasFoldRune(tg) {
 				tg = "k"
 			}
+			if o.avoid("string-on-string") && strings.Contains(tg, ",string") && (f.T.Type().Kind() == reflect.String || (f.T.K == "ptr" && f.T.Elem.Type().Kind() == reflect.String)) {
+				tg = strings.ReplaceAll(tg, ",string", "")
+			}
 			if o.avoid("string-on-number") && strings.Contains(tg, ",string") && f.T.K == "number" {
 				tg = strings.ReplaceAll(tg, ",string", "")
 			}
